@@ -53,8 +53,38 @@ def _site_of_hang():
     return "parse"
 
 
+SENTINELS = {}          # text -> first outcome summary (same process); re-parsed periodically
+STATE = {"n": 0}
+
+
+def recheck_sentinels(ctx):
+    """'the same text always gives the same outcome' also after thousands of other (failing) parses in this
+    process: state leaking from one parse into the next shows up here"""
+    import ckl.parser
+    for text, first in list(SENTINELS.items()):
+        o = observe(lambda: ckl.parser.parse_script(text, FNAME), 20000 + 3000 * len(text))
+        ctx.count("sentinel_reparses")
+        if o.kind == "value":
+            try:
+                now = ("program", node_digest(o.value))
+            except BaseException:  # noqa
+                now = ("program", None)
+        elif o.kind == "syntax":
+            now = ("syntax", getattr(getattr(o.exc, "pos", None), "line", None))
+        else:
+            now = (o.kind,)
+        if now != first:
+            ctx.violation("C01:nondeterministic-after-other-parses",
+                          "%r parsed to %r at first, to %r after %d other parses in the same process" % (text, first, now, STATE["n"]),
+                          {"text": text})
+            SENTINELS.pop(text, None)
+
+
 def check_text(ctx, text, deep=True):
     import ckl.parser
+    STATE["n"] += 1
+    if STATE["n"] % 1500 == 0:
+        recheck_sentinels(ctx)
     budget = 20000 + 3000 * len(text)
     o = observe(lambda: ckl.parser.parse_script(text, FNAME), budget)
     ctx.case(text, nontrivial=bool(text.strip()))
@@ -111,6 +141,9 @@ def check_text(ctx, text, deep=True):
             ctx.violation("C01:nondeterministic-same-process",
                           "two parses of %r differ: %r vs %r" % (text, summary, s2),
                           {"text": text})
+    if len(SENTINELS) < 80 and summary[0] in ("program", "syntax") and text not in SENTINELS and (
+            summary[0] == "program" or len(SENTINELS) % 4 == 0) and len(text) < 400:
+        SENTINELS[text] = summary
     ctx.sample_maybe({"text": text, "outcome": list(map(str, summary))}, 0.002)
     return summary
 
@@ -222,6 +255,7 @@ def run_shard(spec, ctx):
         ctx.extras["xproc_each"] = out
     else:
         raise ValueError(kind)
+    recheck_sentinels(ctx)
 
 
 def finalize(merged, tier):
@@ -245,6 +279,8 @@ def finalize(merged, tier):
         viol.append(("C01:nondeterministic-across-processes",
                      "outcome of batch text #%d differs between hash seeds" % idx,
                      {"batch_index": idx}))
+    if c.get("sentinel_reparses", 0) == 0:
+        reasons.append("no sentinel text was re-parsed")
     if c.get("determinism_checks", 0) == 0:
         reasons.append("no same-process determinism comparison was performed")
     if c.get("grammar_programs_accepted", 0) * 5 < 2 * c.get("grammar_programs", 1):
